@@ -5,3 +5,4 @@ import Bardolph.Driver.All
 import Bardolph.Audit.Tool
 import Bardolph.Props.C11
 import Bardolph.Props.C10
+import Bardolph.Props.C09
